@@ -73,6 +73,9 @@ type replayFile struct {
 // RunStepped executes n generated cases for property prop and reports
 // divergences owned by prop as violations.
 func RunStepped(r *ev.Run, prop string, n int) {
+	if os.Getenv("VERIF_SKIP_STEPPED") != "" && r.ReplayFile() == "" {
+		return
+	}
 	p := ProfileFor(prop)
 	foreign := map[string]int{}
 	ambiguous := 0
